@@ -103,6 +103,7 @@ def handle (line : String) : String :=
       s!"{out} {r.exit}"
   | ["optiontables"] => "ok"
   | ["select", g, r, body] => Driver.SelectProto.handle g r body
+  | ["parse", i] => Driver.ExprProto.handleParse i
   | ["faithful", i] => Driver.ExprProto.handleFaithful i
   | ["semeq", i, o] => Driver.ExprProto.handleSem i o
   | _ => "bad-op"
